@@ -49,6 +49,17 @@ def aclUnaryOn (p : Policy) (svc : Service) (name : String) (reqNamespaces : Lis
   else if (svc = .workflow || svc = .admin) && reqNamespaces.any (fun n => !isAllowed p.namespaces n) then .denied
   else .forward
 
+/-- `Intercept` when the namespace visitor may FAIL on the request (`visit = none`: a history blob that can
+    neither be decoded nor repaired): `isNamespaceAccessAllowed` returns the error and the request is refused. -/
+def aclUnaryOnV (p : Policy) (svc : Service) (name : String) (visit : Option (List String)) : Decision :=
+  match visit with
+  | some ns => aclUnaryOn p svc name ns
+  | none =>
+    if svc = .workflow && denyList.contains name then .denied
+    else if svc = .admin && !isAllowed p.adminMethods name then .denied
+    else if svc = .workflow || svc = .admin then .denied
+    else .forward
+
 /-- `StreamIntercept` on a classified method -/
 def aclStreamOn (p : Policy) (svc : Service) (name : String) : Decision :=
   if svc = .admin && !isAllowed p.adminMethods name then .denied
@@ -69,6 +80,11 @@ def handleUnary (inbound : Bool) (configured : Option Policy) (full : String) (r
   match serverPolicy inbound configured with
   | none => .forward
   | some p => aclUnary p full reqNamespaces
+
+def handleUnaryV (inbound : Bool) (configured : Option Policy) (full : String) (visit : Option (List String)) : Decision :=
+  match serverPolicy inbound configured with
+  | none => .forward
+  | some p => aclUnaryOnV p (serviceOf full) (methodName full) visit
 
 def handleStream (inbound : Bool) (configured : Option Policy) (full : String) : Decision :=
   match serverPolicy inbound configured with
